@@ -69,6 +69,12 @@ func (fp *filePipeline) alloc() (f *fileutil.LockedFile, err error) {
 	if f, err = fileutil.LockFile(fpath, os.O_CREATE|os.O_WRONLY, fileutil.PrivateFileMode); err != nil {
 		return nil, err
 	}
+	// the name may be left over, with header records in it, from a process that died inside
+	// cut(): what a shorter new header does not overwrite would be read as the next record
+	if err = f.Truncate(0); err != nil {
+		f.Close()
+		return nil, err
+	}
 	if err = fileutil.Preallocate(f.File, fp.size, true); err != nil {
 		plog.Errorf("failed to allocate space when creating new wal file (%v)", err)
 		f.Close()
